@@ -49,11 +49,19 @@ def willManufacture (s : St) : Bool :=
   | .empty => true
   | .none => (s.store 1).isNone
 
+/-- what a successful MainInit takes out of the cache: the permanent and the volatile blob (or their "hide" markers). A cached
+    save-state blob is not touched by MainInit — a TPM 1.2 reads it at TPM_Startup(ST_STATE) — and stays, also across Terminate. -/
+def consumeStartBlobs (s : St) : St := { s with cache := fun t => if t = 1 ∨ t = 2 then .none else s.cache t }
+
 /-- TPMLIB_MainInit with its observed result. A TPM 2 whose MainInit fails after the storage callbacks (state of the other
     TPM version in storage, a profile it cannot be manufactured with) is left powered on in failure mode
     (`_rpc__Signal_PowerOn` runs on every path of TPM2_MainInit): until Terminate the API treats it as running. -/
 def mainInit (s : St) (ok : Bool) : St :=
-  { (if ok then clearCache s else s) with locked := true, running := ok || (s.choice == .v2) }
+  { (if ok then consumeStartBlobs s else s) with locked := true, running := ok || (s.choice == .v2) }
+
+/-- the first TPM_Startup of a TPM 1.2 (any type) deletes the saved state and with it a save-state blob that is still cached;
+    the TPM 2 never looks at that cache slot -/
+def startupDone (s : St) : St := if s.choice = .v12 then setCache s 4 .none else s
 
 def terminate (s : St) : St := { s with locked := false, running := false }
 
